@@ -320,6 +320,53 @@ func ruleC17N4(r *Run) {
 					validated[arg] = true
 				}
 			}
+			// bytes read and validated by a helper that hands them back (readValue): validated when the helper returns
+			// them only on the valid edge and the insert is on the helper's nil-error edge
+			for _, buf := range []ssa.Value{keyBuf, valBuf} {
+				ex, isEx := buf.(*ssa.Extract)
+				if !isEx || validated[buf] {
+					continue
+				}
+				hc, isCall := ex.Tuple.(*ssa.Call)
+				if !isCall || !guardedByNilErr(hc, ins) {
+					continue
+				}
+				h := hc.Call.StaticCallee()
+				if h == nil || !p.Analysed(h) {
+					continue
+				}
+				good, any := true, false
+				allInstrs(h, func(x ssa.Instruction) {
+					ret, isRet := x.(*ssa.Return)
+					if !isRet {
+						return
+					}
+					rs := retResults(ret)
+					if ex.Index >= len(rs) || isNilConst(rs[ex.Index]) {
+						return
+					}
+					any = true
+					v := canonVal(rs[ex.Index])
+					okV := false
+					for _, c := range findCalls(h, false, "unicode/utf8.Valid") {
+						call := c.(*ssa.Call)
+						if canonVal(call.Call.Args[0]) != v || call.Referrers() == nil {
+							continue
+						}
+						for _, ref := range *call.Referrers() {
+							if ifs, isIf := ref.(*ssa.If); isIf && edgeDominates(ifs.Block(), ifs.Block().Succs[0], ret.Block()) {
+								okV = true
+							}
+						}
+					}
+					if !okV {
+						good = false
+					}
+				})
+				if good && any {
+					validated[buf] = true
+				}
+			}
 			r.Check(name+" key UTF-8", keyBuf != nil && validated[keyBuf], posOf(p, ins), name, "utf8.Valid is applied to the bytes that become the inserted key, on an edge dominating the insert")
 			r.Check(name+" value UTF-8", valBuf != nil && validated[valBuf], posOf(p, ins), name, "utf8.Valid is applied to the bytes that become the inserted value (a copy-paste of the key check would accept invalid values, which encoding/json later rewrites to U+FFFD)")
 			// duplicate test
